@@ -888,6 +888,10 @@ func (s *State) evalExpressions(exps []ast.Node) ([]object.Object, *object.Error
 			oerr := evaluated.(object.Error)
 			return nil, &oerr
 		}
+		if rv, isControl := evaluated.(object.ReturnValue); isControl {
+			// [break] or f(continue): a control statement isn't a value that can be stored or passed.
+			return nil, s.Errorfp("unexpected %s in expression list", rv.ControlType.String())
+		}
 		result = append(result, object.CopyRegister(evaluated))
 	}
 	return result, nil
